@@ -365,7 +365,7 @@ def corpus():
 
 
 def check(run: Run, lean: dict) -> int:
-    n = 120 if run.tier == "quick" else 3000
+    n = run.budget(120, 3000)
     run.extra["rule"] = (
         "after random Legal histories (0-10 calls): every kind of illegal single-node call applicable to the forest - attached "
         "node offered through add_following/preceding_siblings, append/insert_children, replace_with, node[0]=...; detaching the "
